@@ -95,6 +95,19 @@ func ShrinkingMap.Compute
   ensures len(s.m) == old(len(s.m)) + (old(has(s.m, key)) ? 0 : 1)
   ensures unlocked(s.mutex)
 
+-- ForEach: the consumer is invoked outside the map's lock (it may call back into the map), sequentially, with pairs that
+-- were in the map when the iteration started (a snapshot)
+func ShrinkingMap.ForEach
+  opt sequential
+  opt invokes callback
+  requires s != nil && unlocked(s.mutex) && callback != nil
+  callback callback(k, v) (cont)
+  modifies nothing
+  loop 1 invariant s != nil && rheld(s.mutex) && s.m == old(s.m) && (forall k K :: has(s.m, k) <==> old(has(s.m, k))) && (forall k K :: has(copiedElements, k) ==> has(s.m, k) && copiedElements[k] == s.m[k])
+  loop 2 invariant s != nil && unlocked(s.mutex)
+  ghost before call ShrinkingMap.ForEach#callback: assert unlocked(s.mutex) && old(has(s.m, arg0)) && arg1 == old(s.m[arg0])
+  ensures unlocked(s.mutex)
+
 func ShrinkingMap.Has
   opt sequential
   requires s != nil && unlocked(s.mutex)
